@@ -76,16 +76,24 @@ Example Inv_nontrivial :
 Proof. unfold Inv; simpl; repeat split; lia. Qed.
 
 (* ------------------------------------------------------------------ term_in_body *)
+(* the body runs after the 7th effect (the 8th when a stale failure marker had to be removed) and before the next *)
+Lemma in_body_index : forall v o d k,
+  d_done d = false -> in_body v o d k -> k = if is_some (d_failed d) then 8 else 7.
+Proof.
+  intros v o d k. split_dir d. intros Hd [b Hb]. simpl in Hd. subst dn.
+  destruct fl, v; split_outcome o;
+    split_k k ltac:(first [ reflexivity | exfalso; cbv in Hb; discriminate Hb ]).
+Qed.
+
 Lemma term_in_body : forall v d o g c k,
   d_done d = false -> term_signal g -> in_body v o d k ->
   let d' := launch v d o (Some (g, k, c)) in
   d_done d' = false /\ d_failed d' <> None /\ d_pid d' = false /\
   (c = CTry -> d_failed d' = Some 1%Z).
 Proof.
-  intros v d o g c k. split_dir d. simpl d_done. intros Hd Hg [b Hb]. subst dn.
-  destruct Hg; subst g;
-    destruct fl, v; split_outcome o; destruct c;
-      split_k k ltac:(first [ discriminate Hb | clear Hb; fin ]).
+  intros v d o g c k Hd Hg Hb. rewrite (in_body_index v o d k Hd Hb). clear Hb k.
+  split_dir d. simpl in Hd. subst dn.
+  destruct Hg; subst g; destruct fl, v; split_outcome o; destruct c; fin.
 Qed.
 
 Example in_body_nontrivial : in_body Fixed OOk fresh 7 /\ in_body Prefix (OExit 3) fresh 7 /\ term_signal SInt.
